@@ -54,6 +54,7 @@ BaseBag(b) ==
     [] b = "zero"  -> [EmptyBag EXCEPT ![1] = Q(1, 0), ![2] = Q(2, 0)]                       \* C O0 H2: a zero count contributes nothing
     [] b = "half"  -> [EmptyBag EXCEPT ![2] = Q(1, 1), ![3] = Q(3, 1)]                       \* H0.5 O1.5
     [] b = "H"     -> [EmptyBag EXCEPT ![2] = Q(1, 0)]
+    [] b = "empty" -> EmptyBag                                                               \* formula(''), formula({}), formula([]): a new empty object each time
 Hows == {"str", "atom", "dict", "seq", "gen"}          \* gen: a one-shot iterable (generator, zip)
 HowOK(how, b) == how # "atom" \/ b = "H"
 
